@@ -74,6 +74,9 @@ func (e *elem) text(sb *strings.Builder, parentNS string) {
 	ens := e.Name.Space
 	if ens == "" {
 		ens = parentNS // cannot be expressed otherwise by the encoder either
+		if d := e.declaredNS(); d != "" {
+			ens = d // raw-token form: the namespace is declared by an attribute
+		}
 	}
 	if ens != parentNS {
 		fmt.Fprintf(sb, ` xmlns="%s"`, escAttr(ens))
@@ -116,10 +119,23 @@ func (e *elem) xmlText() string {
 // written under a namespaced parent by encoding/xml's Encoder (it emits no
 // xmlns=""), so on the wire it denotes the parent's namespace: the expected
 // tree resolves that inheritance.
+// declaredNS is the value of an explicit xmlns attribute ("" if none).
+func (e *elem) declaredNS() string {
+	for _, a := range e.Attrs {
+		if a.Name.Space == "" && a.Name.Local == "xmlns" {
+			return a.Value
+		}
+	}
+	return ""
+}
+
 func (e *elem) node(parentNS string) *xmltree.Node {
 	name := e.Name
 	if name.Space == "" {
 		name.Space = parentNS
+		if d := e.declaredNS(); d != "" {
+			name.Space = d
+		}
 	}
 	n := &xmltree.Node{Name: name, Attrs: map[xml.Name]string{}}
 	for _, a := range e.Attrs {
